@@ -111,8 +111,8 @@ PROPS = {
     "C03": _t("importance on every catalogue program with every subset of the address universe constrained (bounded-exhaustive, <=6 addresses) plus random and masked constraints: agreement with the constraint and weight = sum of Exec's per-choice log-densities over the constrained present addresses.", "§5 C03"),
     "C05": _t("update histories (constraints, argument changes, honest taggings, masked constraints): new arguments, constrained values installed, other values kept unless under a switch whose index is honestly tainted (spec-level change analysis Chg), weight = score difference whenever no fresh choice, discard = previous values at overwritten addresses.", "§5 C05"),
     "C06": _t("After every accepted edit (update, regenerate, index, static, empty, diffannotate) the returned backward request is applied with the original argument values; TLC checks the original choices/score/return value are restored and the weight is negated.", "§5 C06"),
-    "C07": _t("Regenerate with TLC-generated selections (atoms, wildcards, complements, unions) on programs that accept it: unselected choices unchanged, weight = new - old score, empty selection is the identity.", "§5 C07"),
-    "C08": _t("Every retdiff leaf tagged NoChange (or not a Diff) must equal the previous return value's leaf, on every edit event of the histories.", "§5 C08"),
+    "C07": _t("Regenerate with TLC-generated selections (atoms, wildcards, complements, unions) on programs that accept it: unselected choices unchanged, weight = new - old score, empty selection is the identity, the new trace is the execution its choices describe (stale scores show here); plus a sampling clause on dyadic categorical programs: over N keys the regenerated value follows the prior given the CURRENT parent values (Hoeffding bound decided by TLC).", "§5 C07"),
+    "C08": _t("Every retdiff leaf tagged NoChange (or not a Diff) must equal the previous return value's leaf, on every edit event of the histories; and every edit is re-run with the same key under every other honest tagging of its unchanged arguments (each non-empty subset tagged UnknownChange): same new trace and weight unless the spec's change analysis says that tagging reaches a switch index.", "§5 C08"),
     "C10": _t("project on traces of programs whose combinators implement it, for TLC-generated selections: value = sum of Exec's log-densities over selected addresses (static part), and project(S)+project(~S)=score.", "§5 C10"),
     "C11": _t("All core laws on vmap/repeat programs (in_axes variants, nested static, masked elements) including index edits; Exec defines vmap as n independent element executions under index i.", "§5 C11"),
     "C12": _t("All core laws on scan and accumulate/reduce/iterate/iterate_final programs, specified directly by their documented loops in Exec, after generate/update/regenerate/index edits.", "§5 C12"),
